@@ -187,6 +187,27 @@ func generate(w *World, cs *Contracts, ms *ModSets, o runOpts) ([]*Obligation, [
 		obls = append(obls, ob)
 		rep.Obligations = 1
 	}
+	for _, ud := range cs.Unreach {
+		if !hasProp(ud.Props, o.property) || o.only != "" {
+			continue
+		}
+		rep := &FuncReport{Key: "unreachable " + ud.Name}
+		reps = append(reps, rep)
+		for _, to := range ud.To {
+			ob := &Obligation{Name: ud.Name + ":unreachable(" + to + ")", Kind: "callgraph", Func: ud.Name, Goal: "true", Props: ud.Props,
+				Text:   to + " is not reachable from " + strings.Join(ud.From, ", ") + " in the call graph of the working tree",
+				Result: &SolveResult{Status: "unsat", Backend: "callgraph"}}
+			if ms == nil {
+				ob.Result = &SolveResult{Status: "error", Output: "no call graph"}
+			} else if path, missing := ms.reachPath(ud.From, to); missing != "" {
+				ob.Result = &SolveResult{Status: "sat", Backend: "callgraph", Output: "function not found: " + missing}
+			} else if path != nil {
+				ob.Result = &SolveResult{Status: "sat", Backend: "callgraph", Output: "call path: " + strings.Join(path, " -> ")}
+			}
+			obls = append(obls, ob)
+			rep.Obligations++
+		}
+	}
 	for _, lm := range cs.Lemmas {
 		if !hasProp(lm.Props, o.property) || (o.only != "" && o.only != lm.Name) {
 			continue
